@@ -110,6 +110,9 @@ func newSandbox(pad int, prepop string) (*sandbox, error) {
 		}
 	}
 	for _, d := range []string{sb.wd, sb.tmp} {
+		if d == sb.wd && prepop == "absent" {
+			continue // the store creates its working directory on first use
+		}
 		if err := os.MkdirAll(d, 0o755); err != nil {
 			return sb, err
 		}
@@ -170,7 +173,8 @@ func newSandbox(pad int, prepop string) (*sandbox, error) {
 
 // prepopParts lists what each pre-population kind creates in the working directory.
 var prepopParts = map[string][]string{
-	"empty": nil,
+	"empty":  nil,
+	"absent": nil, // the working directory does not exist yet
 	"d":     {"d"},
 	"ds":    {"d", "s"},
 	"sub":   {"sub"},
